@@ -3,12 +3,14 @@ pub mod c01;
 pub mod c03;
 pub mod parsing;
 pub mod c07;
+pub mod c08;
 pub mod c09;
 pub mod c10;
 pub mod c11;
 pub mod c13;
 pub mod c14;
 pub mod c18;
+pub mod c20;
 pub mod manip;
 
 use crate::engine::Monitor;
@@ -22,6 +24,7 @@ pub fn all() -> Vec<Box<dyn Monitor>> {
         Box::new(manip::Manip(manip::Which::C05)),
         Box::new(manip::Manip(manip::Which::C06)),
         Box::new(c07::C07),
+        Box::new(c08::C08),
         Box::new(c09::C09),
         Box::new(c10::Names(c10::NW::C10)),
         Box::new(c11::C11),
@@ -31,5 +34,6 @@ pub fn all() -> Vec<Box<dyn Monitor>> {
         Box::new(c14::Ser(c14::SW::C16)),
         Box::new(parsing::Parsing(parsing::PW::C17)),
         Box::new(c18::C18),
+        Box::new(c20::C20),
     ]
 }
